@@ -51,6 +51,11 @@ def gen_checkpoint(rng, nlevels=None, big=False):
         c.species = ['H2', 'O2', 'OH', 'N2', 'H2O', 'CH4', 'CH2(S)', 'C(S)', 'AR']
         c.nghost = 3
     c.time = rng.choice([0.49947225144556617, 1.5e-4, 12.25, 3.946824488833992e-12])
+    rt = random.Random(repr(rng.getstate()[1][:8]))
+    if rt.random() < 0.25:
+        # times whose shortest spelling has no decimal point (the mantissa is a single digit), whole-number times (the
+        # initial checkpoint is written at time 0)
+        c.time = rt.choice([3e-06, 2e-05, 7e-10, 4e+20, 0.0, 0.0, 2.0, 12.0])
     c.step = rng.choice([0, 5, 70100])
     c.int_line = rng.random() < 0.4
     geo_stream = rng.choice(['exact', 'exact', 'decimal'])
@@ -84,6 +89,17 @@ def gen_checkpoint(rng, nlevels=None, big=False):
                         a[..., 4:4 + ns] /= np.sum(a[..., 4:4 + ns], axis=-1, keepdims=True)
                         a[..., 4:4 + ns] *= 1.0 + nq.uniform(-6e-6, 6e-6, a.shape[:-1] + (1,))
                         c.quiet = getattr(c, 'quiet', 0) + 1
+                    elif ns >= 2 and rq.random() < 0.35:
+                        # small undershoots: some cells hold a slightly NEGATIVE mass fraction of one species (the sum stays
+                        # positive); rescaling divides it like the others, it is not clipped
+                        nq = np.random.default_rng(rq.getrandbits(32))
+                        hit = nq.random(a.shape[:-1]) < 0.15
+                        which = nq.integers(0, ns, a.shape[:-1])
+                        for sp in range(ns):
+                            col = a[..., 4 + sp]
+                            sel = hit & (which == sp)
+                            col[sel] = -np.abs(col[sel]) * 1e-2
+                        c.undershoot = getattr(c, 'undershoot', 0) + 1
                 arrs.append(np.asfortranarray(a))
             lev['data'][sub] = arrs
             files, lk = gen.gen_layout(rng, len(boxes))
@@ -93,7 +109,8 @@ def gen_checkpoint(rng, nlevels=None, big=False):
         c.levels.append(lev)
     c.meta = dict(nlevels=nlevels, bf=bf, nspecies=ns, nghost=c.nghost, geo=geo_stream + '/' + geo_kind,
                   int_line=c.int_line, nboxes=[len(l['boxes']) for l in c.levels], layouts_state=layouts['state'],
-                  layouts_gradp=layouts['gradp'], n0=c.n0, case='big' if big else 'generated', quiet_boxes=getattr(c, 'quiet', 0))
+                  layouts_gradp=layouts['gradp'], n0=c.n0, case='big' if big else 'generated', quiet_boxes=getattr(c, 'quiet', 0), undershoot_boxes=getattr(c, 'undershoot', 0),
+                  time=c.time)
     return c
 
 
